@@ -19,6 +19,8 @@ def spec_tags(spec):
             tags.add("nested_tperm")
         if s["cls"] == "Kron" and s["n"] == s["m"] and any(c["n"] != c["m"] for c in s["children"]):
             tags.add("kron_rect_factors")
+        if s["cls"] == "KronAddedDiag" and s["children"][1]["cls"] == "KronDiag":
+            tags.add("kron_plus_krondiag")
         for c in s["children"]:
             walk(c, depth + 1)
 
